@@ -89,6 +89,9 @@ pub struct Run {
     pub gen_faults: BTreeMap<String, u64>,
 }
 
+/// content marker inside `Variant::earlier`: the file does not exist while that earlier revision is compiled
+pub const ABSENT_IN_EARLIER_REVISION: &str = "\u{0}absent-in-this-earlier-revision";
+
 #[derive(Serialize, Deserialize, Clone, Debug, PartialEq, Eq)]
 pub struct Variant {
     pub hash_seed: u64,
